@@ -107,6 +107,7 @@ func (dr *DialogueRunner) Next(choice int) (*DialogueElement, error) {
 	}
 
 	if dr.statementsToRun.Size() == 0 {
+		dr.lastStatement = nil
 		return nil, nil
 	}
 
@@ -180,6 +181,8 @@ func (dr *DialogueRunner) Next(choice int) (*DialogueElement, error) {
 		if stop, err := dr.executeCommandStatement(nextStatement.CommandStatement); err != nil {
 			return nil, fmt.Errorf("failed to execute command statement: %w", err)
 		} else if stop {
+			dr.statementsToRun.Clear()
+			dr.lastStatement = nil
 			return nil, nil
 		} else if dr.commandErrChan != nil {
 			return nil, ErrWaitingForCommandCompletion
